@@ -269,22 +269,26 @@ structure Rel (S : Bytes) (w : World) (a : Stream) : Prop where
 /-- pulling `m ≤ room` bytes from the source into the buffer keeps the relation -/
 theorem Rel.pull {S : Bytes} {w : World} {a : Stream} (r : Rel S w a) (m : Nat)
     (hm : m ≤ a.size - (a.acc.length - a.low)) :
-    ∃ a', Rel S { b := (w.b.add (w.src.read m).2).1, src := (w.src.read m).1 } a' ∧ a'.cur = a.cur := by
+    ∃ a', Rel S { b := (w.b.add (w.src.read m).2).1, src := (w.src.read m).1 } a' ∧ a'.cur = a.cur ∧
+      a'.acc = a.acc ++ (w.src.read m).2 := by
   have hs := Src.read_spec w.src m
   have hd : (w.src.read m).2.length ≤ a.size - (a.acc.length - a.low) := Nat.le_trans hs.2 hm
   have ha := Stream.add_all a _ hd
-  refine ⟨(a.add (w.src.read m).2).1, ⟨?_, Stream.add_inv a r.inv _, ?_⟩, ha.2⟩
+  refine ⟨(a.add (w.src.read m).2).1, ⟨?_, Stream.add_inv a r.inv _, ?_⟩, ha.2, ha.1⟩
   · simp only [r.buf, Stream.add_refines a r.inv]
   · simp only [ha.1, List.append_assoc, hs.1]; exact r.src
 
 theorem Rel.fill {S : Bytes} {w : World} {a : Stream} (r : Rel S w a) (n : Nat) :
-    ∃ a', Rel S (w.fill n) a' ∧ a'.cur = a.cur := by
+    ∃ a', Rel S (w.fill n) a' ∧ a'.cur = a.cur ∧ a.acc.length ≤ a'.acc.length ∧
+      (w.b.remaining > 0 ∧ n > w.b.unread → a'.acc = a.acc ++ (w.src.read (min n w.b.remaining)).2) := by
   unfold World.fill
   split
   · have hrem : w.b.remaining = a.size - (a.acc.length - a.low) := by
       rw [r.buf]; exact Stream.toBuf_remaining a
-    exact r.pull _ (by rw [hrem]; exact Nat.min_le_right _ _)
-  · exact ⟨a, r, rfl⟩
+    obtain ⟨a', r', hc, hacc⟩ := r.pull (min n w.b.remaining) (by rw [hrem]; exact Nat.min_le_right _ _)
+    exact ⟨a', r', hc, by rw [hacc, List.length_append]; omega, fun _ => hacc⟩
+  · rename_i hno
+    exact ⟨a, r, rfl, Nat.le_refl _, fun h => absurd h hno⟩
 
 theorem Rel.get {S : Bytes} {w : World} {a : Stream} (r : Rel S w a) (m : Nat) :
     Rel S { w with b := (w.b.get m).1 } (a.get m).1 ∧
@@ -310,7 +314,7 @@ theorem Rel.read {S : Bytes} {w : World} {a : Stream} (r : Rel S w a) (sz : Opti
     cases n with
     | zero => exact ⟨a, r, by simp [World.read], by simp [World.read], by simp [World.read]⟩
     | succ n =>
-      obtain ⟨a1, r1, hc1⟩ := r.fill (n + 1)
+      obtain ⟨a1, r1, hc1, _, _⟩ := r.fill (n + 1)
       obtain ⟨h1, h2, h3, h4⟩ := r1.get (min (n + 1) (w.fill (n + 1)).b.unread)
       refine ⟨_, h1, ?_, ?_, ?_⟩
       · intro k hk
@@ -447,7 +451,8 @@ theorem Rel.feed {S : Bytes} {w : World} {a : Stream} (r : Rel S w a) (blk : Nat
   · rename_i hf
     rw [r.buf, Stream.toBuf_fits] at hf
     have hf' : a.acc.length - a.low + blk ≤ a.size := by simpa using hf
-    exact r.pull blk (by omega)
+    obtain ⟨a', r', hc, _⟩ := r.pull blk (by omega)
+    exact ⟨a', r', hc⟩
   · exact ⟨a, r, rfl⟩
 
 theorem Rel.istep {S : Bytes} {w : World} {a : Stream} (r : Rel S w a) (op : IOp) :
@@ -561,5 +566,112 @@ theorem WRef.concat_noSeek (S : Bytes) (c : Nat) (ops : List WOp) (rs : List WRe
         | flag ok =>
           simp only [WRef.next] at hok
           simpa [WRes.bytes] using ih c rs hlen' hok hns'
+
+/-! ### progress: unprotected, a read of ≥ 1 byte is empty only at the end of the source -/
+
+theorem Src.read_nonempty (s : Src) (n : Nat) (hn : 1 ≤ n) (hr : s.rest ≠ []) : (s.read n).2 ≠ [] := by
+  unfold Src.read
+  split
+  · simp only [ne_eq, List.take_eq_nil_iff, not_or]; exact ⟨by omega, hr⟩
+  · simp only [ne_eq, List.take_eq_nil_iff, not_or]; exact ⟨by omega, hr⟩
+
+theorem Rel.read_progress {S : Bytes} {w : World} {a : Stream} (r : Rel S w a) (n : Nat) (hn : 1 ≤ n)
+    (hprot : a.prot = false) (hsz : a.headroom ≤ a.size) (hmore : a.cur < S.length) :
+    (w.read (some n)).2 ≠ [] := by
+  obtain ⟨a1, r1, hc1, hge, hpull⟩ := r.fill n
+  have hinv := r.inv
+  have h2 := hinv.low_cur; have h3 := hinv.cur_acc; have h4 := hinv.low_mode
+  have h5 := hinv.in_headroom; have h7 := hinv.cap; have h1 := hinv.hpos
+  -- after the refill at least one byte is buffered beyond the cursor
+  have hbuf : a1.cur < a1.acc.length := by
+    rw [hc1]
+    by_cases hun : a.cur < a.acc.length
+    · omega
+    · have hcur : a.cur = a.acc.length := by omega
+      have hrest : w.src.rest ≠ [] := by
+        intro he
+        have := r.src
+        rw [he, List.append_nil] at this
+        rw [← this] at hmore
+        omega
+      have hunread : w.b.unread = 0 := by rw [r.buf, Stream.toBuf_unread a hinv]; omega
+      have hrem : w.b.remaining > 0 := by
+        rw [r.buf, Stream.toBuf_remaining]
+        rcases h4 with h0 | hc
+        · have := h5 h0 hprot; omega
+        · omega
+      have hacc := hpull ⟨hrem, by omega⟩
+      have hne := Src.read_nonempty w.src (min n w.b.remaining) (by omega) hrest
+      have hlen : 0 < (w.src.read (min n w.b.remaining)).2.length := List.length_pos_iff.mpr hne
+      rw [hacc, List.length_append]
+      omega
+  cases n with
+  | zero => omega
+  | succ m =>
+    obtain ⟨_, hout, _, _⟩ := r1.get (min (m + 1) (w.fill (m + 1)).b.unread)
+    have hu : (w.fill (m + 1)).b.unread = a1.acc.length - a1.cur := by
+      rw [r1.buf, Stream.toBuf_unread a1 r1.inv]
+    show ((w.fill (m + 1)).b.get (min (m + 1) (w.fill (m + 1)).b.unread)).2 ≠ []
+    rw [hout, hu]
+    intro he
+    have := congrArg List.length he
+    simp only [List.length_take, List.length_drop, List.length_nil] at this
+    omega
+
+/-! ### construction parameters never change -/
+
+theorem Buf.add_params (s : Buf) (d : Bytes) :
+    (s.add d).1.size = s.size ∧ (s.add d).1.headroom = s.headroom := ⟨rfl, rfl⟩
+
+theorem Buf.get_params (s : Buf) (n : Nat) :
+    (s.get n).1.size = s.size ∧ (s.get n).1.headroom = s.headroom := by
+  simp only [Buf.get]
+  repeat' split
+  all_goals exact ⟨rfl, rfl⟩
+
+theorem Buf.seek_params (s : Buf) (p : Nat) :
+    (s.seek p).1.size = s.size ∧ (s.seek p).1.headroom = s.headroom := by
+  unfold Buf.seek
+  repeat' split
+  all_goals exact ⟨rfl, rfl⟩
+
+theorem Buf.setProtected_params (s : Buf) (b : Bool) :
+    (s.setProtected b).1.size = s.size ∧ (s.setProtected b).1.headroom = s.headroom := by
+  unfold Buf.setProtected
+  repeat' split
+  all_goals exact ⟨rfl, rfl⟩
+
+theorem World.fill_params (w : World) (n : Nat) :
+    (w.fill n).b.size = w.b.size ∧ (w.fill n).b.headroom = w.b.headroom := by
+  unfold World.fill
+  split
+  · exact Buf.add_params _ _
+  · exact ⟨rfl, rfl⟩
+
+theorem World.step_params (k : Kind) (w : World) (op : WOp) :
+    (w.step k op).1.b.size = w.b.size ∧ (w.step k op).1.b.headroom = w.b.headroom := by
+  cases op with
+  | read sz =>
+    cases sz with
+    | none => exact Buf.get_params _ _
+    | some n =>
+      cases n with
+      | zero => exact ⟨rfl, rfl⟩
+      | succ m =>
+        have h1 := Buf.get_params (w.fill (m + 1)).b (min (m + 1) (w.fill (m + 1)).b.unread)
+        have h2 := World.fill_params w (m + 1)
+        exact ⟨h1.1.trans h2.1, h1.2.trans h2.2⟩
+  | seek p => cases k <;> exact Buf.seek_params _ _
+  | seekCur off => cases k <;> exact ⟨rfl, rfl⟩
+  | protect b => exact Buf.setProtected_params _ _
+
+theorem World.run_params (k : Kind) (w : World) (ops : List WOp) :
+    (w.run k ops).1.b.size = w.b.size ∧ (w.run k ops).1.b.headroom = w.b.headroom := by
+  induction ops generalizing w with
+  | nil => exact ⟨rfl, rfl⟩
+  | cons op ops ih =>
+    have h1 := ih (w.step k op).1
+    have h2 := World.step_params k w op
+    exact ⟨h1.1.trans h2.1, h1.2.trans h2.2⟩
 
 end PyatvModel.C17
